@@ -59,6 +59,13 @@ impl Mag {
             _ => unreachable!(),
         }
     }
+    /// plain decimal text (None for magnitudes without one)
+    fn lit(&self) -> Option<String> {
+        match self {
+            Mag::Value { lit, .. } => lit.clone(),
+            _ => unreachable!(),
+        }
+    }
     /// text for a position that accepts an expression
     fn e(&self) -> &str {
         match self {
@@ -701,6 +708,29 @@ pub fn sites() -> Vec<Site> {
         };
         main_only(format!("{}#d8 1\nx:\n#d8 2\n", bankdef(&format!(" bits = 8\n addr = 0\n outp = 0\n labelalign = {}", m.e()))), exp)
     }));
+    // magnitudes given on the command line: the digit-group size of the two listing formats, the iteration budget
+    for fmt in ["annotated", "tcgame"] {
+        v.push(site(&format!("format-{}-group", fmt), Value, &format!("#d8 1, 2, 3 assembled with -f {},group:N", fmt), move |m| {
+            let lit = m.lit()?;
+            Some(Gen {
+                files: vec![
+                    ("main.asm".into(), b"#d8 1, 2, 3\n".to_vec()),
+                    ("ARGV".into(), format!("main.asm\n-q\n--color=off\n-f\n{},group:{}\n-o\nout.bin\n", fmt, lit).into_bytes()),
+                ],
+                expect: Expect::None,
+            })
+        }));
+    }
+    v.push(site("iteration-budget", Value, "x = y + 1 / y = 2 / #d8 x assembled with --iters=N", |m| {
+        let lit = m.lit()?;
+        Some(Gen {
+            files: vec![
+                ("main.asm".into(), b"x = y + 1\ny = 2\n#d8 x\n".to_vec()),
+                ("ARGV".into(), format!("main.asm\n-q\n--color=off\n--iters={}\n-f\nbinary\n-o\nout.bin\n", lit).into_bytes()),
+            ],
+            expect: Expect::None,
+        })
+    }));
     // include functions: f.bin = 01 02 03 04, fb.txt = "0101", fh.txt = "a5a5" (4 units each)
     for (func, file, content) in [("incbin", "f.bin", INC_BYTES), ("incbinstr", "fb.txt", b"0101" as &[u8]), ("inchexstr", "fh.txt", b"a5a5" as &[u8])] {
         let mk = move |text: String, expect: Expect| Some(Gen { files: vec![("main.asm".into(), text.into_bytes()), (file.to_string(), content.to_vec())], expect });
@@ -780,6 +810,14 @@ fn write_files(dir: &std::path::Path, files: &[(String, Vec<u8>)]) -> std::io::R
     Ok(())
 }
 
+/// the command line of a case: the fixed one, unless the site wrote its own (file `ARGV`, one argument per line)
+fn argv_of(dir: &std::path::Path) -> Vec<String> {
+    match std::fs::read_to_string(dir.join("ARGV")) {
+        Ok(t) => t.lines().map(|l| l.to_string()).collect(),
+        Err(_) => ARGV.iter().map(|a| a.to_string()).collect(),
+    }
+}
+
 fn run_process(dir: &std::path::Path, lim: &Limits) -> Result<ProcObs, String> {
     let out = std::fs::File::create(dir.join("stdout.txt")).map_err(|e| e.to_string())?;
     let err = std::fs::File::create(dir.join("stderr.txt")).map_err(|e| e.to_string())?;
@@ -788,7 +826,7 @@ fn run_process(dir: &std::path::Path, lim: &Limits) -> Result<ProcObs, String> {
         .arg("-c")
         .arg(shell_line(lim))
         .arg(real_bin())
-        .args(ARGV)
+        .args(argv_of(dir))
         .current_dir(dir)
         .env("RUST_BACKTRACE", "0")
         .stdin(std::process::Stdio::null())
@@ -929,6 +967,7 @@ pub struct CaseResult {
     obs: Option<ProcObs>,
     expect: Value,
     program_head: String,
+    argv: Vec<String>,
     files_total_bytes: usize,
     nfiles: usize,
     cpu_limit_s: u64,
@@ -936,7 +975,7 @@ pub struct CaseResult {
 
 fn run_case(root: &str, s: &Site, si: usize, mi: usize, m: &Mag, lim: &Limits, keep_dir: bool) -> Result<CaseResult, String> {
     let Some(g) = (s.gen)(m) else {
-        return Ok(CaseResult { outcome: Outcome::NotApplicable, obs: None, expect: Value::Null, program_head: String::new(), files_total_bytes: 0, nfiles: 0, cpu_limit_s: 0 });
+        return Ok(CaseResult { outcome: Outcome::NotApplicable, obs: None, expect: Value::Null, program_head: String::new(), argv: vec![], files_total_bytes: 0, nfiles: 0, cpu_limit_s: 0 });
     };
     let dir = std::path::PathBuf::from(format!("{}/s{:03}-m{:02}", root, si, mi));
     let _ = std::fs::remove_dir_all(&dir);
@@ -954,7 +993,7 @@ fn run_case(root: &str, s: &Site, si: usize, mi: usize, m: &Mag, lim: &Limits, k
     let outcome = classify(&obs, &dir.join("out.bin"), &g.expect);
     let main = &g.files[0].1;
     let head = String::from_utf8_lossy(&main[..std::cmp::min(main.len(), 240)]).to_string();
-    let res = CaseResult { outcome, obs: Some(obs), expect: g.expect.describe(), program_head: head, files_total_bytes: total_bytes, nfiles: g.files.len(), cpu_limit_s: lim.cpu_s };
+    let res = CaseResult { outcome, obs: Some(obs), expect: g.expect.describe(), program_head: head, argv: argv_of(&dir), files_total_bytes: total_bytes, nfiles: g.files.len(), cpu_limit_s: lim.cpu_s };
     if !keep_dir {
         let _ = std::fs::remove_dir_all(&dir);
     }
@@ -974,8 +1013,8 @@ fn case_json(s: &Site, m: &Mag, r: &CaseResult, m0: &str) -> Value {
         "main_asm_head": r.program_head,
         "files": r.nfiles,
         "input_bytes": r.files_total_bytes,
-        "argv": ARGV,
-        "launcher": format!("sh -c '{}' $VERIF_REAL_BIN {}", shell_line(lim), ARGV.join(" ")),
+        "argv": r.argv,
+        "launcher": format!("sh -c '{}' $VERIF_REAL_BIN {}", shell_line(lim), r.argv.join(" ")),
         "expected": {"status": "exit 0, or exit 1 with at least one `error:` line on stderr; no signal, no exit 101, within the CPU budget and the 2 GiB cap", "output": r.expect},
         "observed": {
             "outcome": r.outcome.code(),
@@ -1103,7 +1142,7 @@ pub fn run(ctx: &Ctx) -> Report {
                 // again) are not run; every other magnitude still is — there the recorded tree answers at once
                 let label = lad(sites[*si].ladder)[mi].label();
                 if timed_out && listed.map(|v| v.contains(&label)).unwrap_or(true) {
-                    results.lock().unwrap().insert((*si, mi), CaseResult { outcome: Outcome::Skipped, obs: None, expect: Value::Null, program_head: String::new(), files_total_bytes: 0, nfiles: 0, cpu_limit_s: 0 });
+                    results.lock().unwrap().insert((*si, mi), CaseResult { outcome: Outcome::Skipped, obs: None, expect: Value::Null, program_head: String::new(), argv: vec![], files_total_bytes: 0, nfiles: 0, cpu_limit_s: 0 });
                     continue;
                 }
                 if let Some(r) = exec(*si, mi) {
@@ -1264,7 +1303,7 @@ pub fn replay(ctx: &Ctx, case: &serde_json::Value) -> i32 {
     let code = super::replay_with(ctx, case, |_case, l| match run_case(&root, s, si, 0, &m, &lim, true) {
         Ok(r) => {
             println!("site {} magnitude {}: outcome {} {:?}", s.name, label, r.outcome.code(), r.obs);
-            println!("reproduce: cd {}/s{:03}-m00 && sh -c '{}' {} {}", root, si, shell_line(&lim.for_input(r.files_total_bytes)), real_bin(), ARGV.join(" "));
+            println!("reproduce: cd {}/s{:03}-m00 && sh -c '{}' {} {}", root, si, shell_line(&lim.for_input(r.files_total_bytes)), real_bin(), r.argv.join(" "));
             if let Outcome::Bad(k, d) = &r.outcome {
                 l.violation(Violation { property: ID, key: format!("C19:{}:{}", s.name, k), what: d.clone(), case: case_json(s, &m, &r, &label) });
             }
